@@ -32,11 +32,14 @@ def main():
     out = []
     for case in job["cases"]:
         rec = {"id": case["id"], "opt": job["seq"], "mk": {"m": last["m"], "scope": "all", "ov": last.get("ov", [])}}
+        if "val" in last:            # round 7: the value the handlers of a "nil" class return
+            rec["mk"]["val"] = last["val"]
         if cls is None:
             rec.update({"opterr": opterr, "tr": [], "at": [], "evs": []})
         else:
             calls = [(pool[c["e"] - 1], args[c["a"] - 1]) for c in case["h"]]
-            r = cm.record_history(cm.instrument(cls), (), plain, (), "R", calls,
+            style = "walk" if last["m"] == "walk" else "R"
+            r = cm.record_history(cm.instrument(cls), (), plain, (), style, calls,
                                   case.get("sh", 0))
             rec.update({"tr": r.trees, "at": r.args, "evs": r.evs})
         out.append(rec)
